@@ -86,7 +86,12 @@ def cases(tier, seed):
     for i in range(n):
         rng = core.rng_for(seed, 'c18', i)
         spec = dag.gen_spec(rng, size=rng.randint(3, 14), features=set(DAG_FEATURES))
-        ext = c18gen.gen_ext(rng, spec)
+        # (dist= stays what the generator chose: it knows which results the build consumes)
+        force = [None, {'cache': False, 'extra': ['*.h']},
+                 {'cache': False, 'filter': 'platform'},
+                 {'cache': False, 'extra': ['*.h', '*.txt']},
+                 {'cache': True, 'extra': ['*.h'], 'repeat': True}][(i + seed) % 5]
+        ext = c18gen.gen_ext(rng, spec, force)
         yield {'spec': spec, 'ext': ext, 'backend': ('make', 'ninja')[i % 2], 'index': i,
                'gzip_target': rng.choice(['dist', 'dist-gzip'])}
 
